@@ -203,9 +203,12 @@ Drain(st, took, max, ptoks) ==
           s1   == [st EXCEPT !.spool = SubSeq(st.spool, n + 1, Len(st.spool))]
           next == [s1 EXCEPT !.nproc = @ + 1]
       IN IF ~p.ok THEN Stop(s1, "fatal")
+         ELSE IF code \in KnownSig /\ HasCritical(p.opts) THEN Stop(s1, "fatal")
+         \* the first message has to be the CSM (RFC 8323 5.3); the statement does
+         \* not say what becomes of a peer that starts with something else
+         ELSE IF ~st.csm /\ code \notin {CSM, RELEASE, ABORT} /\ took THEN Stop(s1, "may")
          ELSE IF IsSig(code) THEN
-           IF code \in KnownSig /\ HasCritical(p.opts) THEN Stop(s1, "fatal")
-           ELSE IF code = CSM THEN Drain([next EXCEPT !.csm = TRUE], took, max, ptoks)
+           IF code = CSM THEN Drain([next EXCEPT !.csm = TRUE], took, max, ptoks)
            ELSE IF code = PING THEN Drain([next EXCEPT !.wr = Append(@, <<"pong", tok>>)], took, max, ptoks)
            ELSE IF code = PONG THEN Drain(next, took, max, ptoks)
            ELSE IF code \in {RELEASE, ABORT} THEN PeerGone(s1)
@@ -215,9 +218,7 @@ Drain(st, took, max, ptoks) ==
          \* a trailing payload marker (RFC 7252: format error) and a string
          \* option that is not UTF-8 may be refused or passed on as they are
          ELSE IF (p.trail \/ ~StringsOk(p.opts)) /\ took THEN Stop(s1, "fatal")
-         ELSE IF ~st.csm
-           \* never dispatched; whether the endpoint gives up is its choice
-           THEN IF took THEN Stop(s1, "may") ELSE Drain(next, took, max, ptoks)
+         ELSE IF ~st.csm THEN Drain(next, took, max, ptoks)      \* never dispatched
          ELSE Drain([next EXCEPT !.disp = Append(@, Msg(code, tok, p.opts, p.pay)),
                                  !.pend = IF IsResp(code) THEN Answer(@, ptoks, tok) ELSE @],
                     took, max, ptoks)
